@@ -1,9 +1,144 @@
-(* Properties/C02.v — every spelling of a PDF object parses to exactly that object. *)
-From PV Require Import Model.Obj Spec.Spelling.
+(* Properties/C02.v — every spelling of a PDF object parses to exactly that object.
+   Only statements, each closed by [exact] of a lemma from Proofs/, with Print Assumptions.
+
+   [spells F n v sp]   (Spec/Spelling.v) sp is a spelling of the value v with bracket nesting <= n, by
+                       the lexical rules of the property text; F is the follow condition of integers.
+   [follow F v rest]   the legal following contexts: tokens that end in a regular character (numbers,
+                       names, keywords, R) are followed by whitespace, a delimiter or the end; an
+                       integer additionally by something that is not the rest of a reference.
+   [int_follow_sem]    F instantiated with the parser's own look-ahead: the bytes that follow are not
+                       read as  ws+ integer ws+ "R"  (the documented reading: "a b R" is the reference).
+   [parse_obj rel n]   parse_pdf_obj with n levels left (Model/Obj.v), rel = build profile. *)
+From PV Require Import Model.Obj Spec.Spelling Proofs.PrimExtra Proofs.ObjDepth Proofs.ObjDict Proofs.ObjTok Proofs.ObjNum
+     Proofs.ObjTok2 Proofs.ObjSpell Proofs.ObjLit Proofs.ObjC02.
+
+(* THE SPELLING THEOREM — induction over the spelling derivation: all values (null, booleans,
+   integers, reals, names, literal and hexadecimal strings, references, arrays, dictionaries to any
+   depth n) x all token spellings x all whitespace/comment choices x all legal following contexts x any
+   text in front.  Value, span and cursor are exactly the spelling.
+   (2147483000: RawLiteralString counts parentheses in an i32.) *)
+Theorem C02_spelling : forall rel n v sp pre w rest,
+  spells int_follow_sem n v sp -> ws w -> follow int_follow_sem v rest ->
+  (Z.of_nat (len sp) < 2147483000)%Z ->
+  parse_obj rel n (pre ++ w ++ sp ++ rest) (len pre) =
+  POk (v, len pre + len w, len pre + len w + len sp) (len pre + len w + len sp).
+Proof. exact spelling_sound. Qed.
+
+(* behind an integer, the end of the text or any byte that is neither whitespace nor '%' is a legal context *)
+Theorem C02_int_follow_delimiter : forall rest, ws_stop rest -> int_follow_sem rest.
+Proof. exact int_follow_ws_stop. Qed.
+
+(* tokens *)
+Theorem C02_number_spelling : forall v sp pre rest,
+  spells_num v sp -> num_stop rest ->
+  (forall z, v = OInt z -> ~ lookahead_ref (pre ++ sp ++ rest) (len pre + len sp)) ->
+  number_or_ref (pre ++ sp ++ rest) (len pre) = POk v (len pre + len sp).
+Proof. exact number_spec. Qed.
+
+(* the look-ahead: an integer followed by  ws+ integer ws+ R  IS the reference ("1 2 RG" = 1 2 R, then G) *)
+Theorem C02_int_then_ref : forall n g sn w1 sg w2 pre rest,
+  spells_nat n sn -> ws w1 -> w1 <> [] -> spells_nat g sg -> ws w2 -> w2 <> [] ->
+  let sp := sn ++ w1 ++ sg ++ w2 ++ [82%N] in
+  number_or_ref (pre ++ sp ++ rest) (len pre) = POk (ORef n g) (len pre + len sp).
+Proof. exact reference_spec. Qed.
+
+Theorem C02_name_spelling : forall bs enc pre rest,
+  name_enc bs enc -> term_stop rest ->
+  name (pre ++ (47%N :: enc) ++ rest) (len pre) = POk (bs, len pre, len pre + S (len enc)) (len pre + S (len enc)).
+Proof. exact name_spec. Qed.
+
+(* the hand-written windows(3) #xx decoder is the obvious left-to-right decoder (proved by the
+   owner of Model/Prim.v in Proofs/PrimExtra.v) *)
+Theorem C02_name_decode_is_simple : forall l, name_decode l = simple_decode l.
+Proof. exact name_decode_is_simple. Qed.
+
+Theorem C02_lit_string_balanced : forall rel body pre rest,
+  balanced body -> (Z.of_nat (len body) < 2147483000)%Z ->
+  lit_string rel (pre ++ (40%N :: body ++ [41%N]) ++ rest) (len pre) =
+  POk (body, len pre, len pre + len body + 2) (len pre + len body + 2).
+Proof. exact lit_string_spec. Qed.
+
+Theorem C02_hex_string_spelling : forall bs body pre rest,
+  hex_enc bs body ->
+  hexstring (pre ++ (60%N :: body ++ [62%N]) ++ rest) (len pre) =
+  POk (bs, len pre, len pre + len body + 2) (len pre + len body + 2).
+Proof. exact hexstring_spec. Qed.
+
+Theorem C02_whitespace : forall e w pre rest,
+  ws w -> ws_stop rest -> (e = true \/ w <> []) ->
+  ws_eol e (pre ++ w ++ rest) (len pre) = POk (tt, len pre, len pre + len w) (len pre + len w).
+Proof. exact ws_eol_spec. Qed.
+
+(* a dictionary never contains an entry whose value is null — for EVERY input that is accepted, at any depth *)
+Theorem C02_dict_no_null : forall rel b s c d a e c',
+  parse_obj rel b s c = POk (ODict d, a, e) c' -> Forall (fun kv => snd kv <> ONull) d.
+Proof. exact dict_no_null. Qed.
+
+Theorem C02_no_null_anywhere : forall rel b s c o a e c', parse_obj rel b s c = POk (o, a, e) c' -> no_null o.
+Proof. exact parse_obj_no_null. Qed.
+
+(* a spelling that repeats a non-null key (in any spelling of the key) is rejected *)
+Theorem C02_dup_key_rejected : forall rel b s c u0 c0 u1 c1 k1 c2 u2 c3 o c4 u3 c5 k2 c6,
+  ws_eol true s c = POk u0 c0 ->
+  peek s c0 = Some 60%N -> peek s (S c0) = Some 60%N ->
+  ws_eol true s (S (S c0)) = POk u1 c1 -> exact kw_rdict s c1 = None ->
+  name s c1 = POk k1 c2 ->
+  ws_eol true s c2 = POk u2 c3 ->
+  parse_obj rel b s c3 = POk o c4 -> lv_val o <> ONull ->
+  ws_eol true s c4 = POk u3 c5 -> exact kw_rdict s c5 = None ->
+  name s c5 = POk k2 c6 -> lv_val k2 = lv_val k1 ->
+  parse_obj rel (S b) s c = PErr EGuard c6.
+Proof. exact dup_key_rejected. Qed.
+
+Theorem C02_dup_key_rejected_anywhere : forall rec fuel s c map names u c1 k c2,
+  ws_eol true s c = POk u c1 -> exact kw_rdict s c1 = None ->
+  name s c1 = POk k c2 -> In (lv_val k) names ->
+  dict_loop rec (S fuel) s c map names = PErr EGuard c2.
+Proof. exact dict_dup_rejected. Qed.
+
+(* comments are whitespace: parse_pdf_obj never returns a Comment object *)
+Theorem C02_no_comment_object : forall rel b s c x a e c', parse_obj rel b s c = POk (OComment x, a, e) c' -> False.
+Proof. exact parse_obj_no_comment. Qed.
+
+(* the hypotheses are satisfiable:  [+1/A#42<</K null/K(a\)b)>>]  *)
+Example C02_example :
+  spells int_follow_sem 3
+    (OArr [OInt 1; OName (B "AB"); ODict [(B "K", OStr (B "a\)b"))]])
+    (B "[+1/A#42<</K null/K(a\)b)>>]").
+Proof.
+  apply (sp_arr _ 2 _ (B "+1/A#42<</K null/K(a\)b)>>")).
+  apply (items_cons _ 2 [] (OInt 1) (B "+1") _ (B "/A#42<</K null/K(a\)b)>>")); [constructor| | |].
+  - apply sp_number. apply (sp_int false [43%N] [49%N]); [constructor|discriminate|repeat constructor|vm_compute; split; discriminate].
+  - apply (items_cons _ 2 [] (OName (B "AB")) (B "/A#42") _ (B "<</K null/K(a\)b)>>")); [constructor| | |].
+    + apply sp_name. apply ne_raw; [reflexivity|intros [E _]; discriminate|].
+      apply (ne_esc 66 52 50); [reflexivity|reflexivity|reflexivity|discriminate|constructor].
+    + apply (items_cons _ 2 [] _ (B "<</K null/K(a\)b)>>") [] []); [constructor| |repeat constructor|intros; exact I].
+      apply (sp_dict _ 1 [(B "K", ONull); (B "K", OStr (B "a\)b"))] (B "/K null/K(a\)b)")); [|reflexivity].
+      apply (entries_cons _ 1 [] (B "K") (B "K") (B " ") ONull (B "null") _ (B "/K(a\)b)")); [constructor| |repeat constructor|discriminate|constructor| |intros; reflexivity].
+      * apply ne_raw; [reflexivity|intros [E _]; discriminate|constructor].
+      * apply (entries_cons _ 1 [] (B "K") (B "K") [] (OStr (B "a\)b")) (B "(a\)b)") [] []); [constructor| |constructor|intros; reflexivity| |repeat constructor|intros; exact I].
+        -- apply ne_raw; [reflexivity|intros [E _]; discriminate|constructor].
+        -- apply (sp_lit _ 0 (B "a\)b")). reflexivity.
+    + intros outer. reflexivity.
+  - intros outer. split; [reflexivity|]. apply int_follow_ws_stop. split; [reflexivity|discriminate].
+Qed.
 
 (* finding C02-plus (fixed by repo commit 8188ffd, witness kept in corpus/c02.txt): the pinned
    dispatcher rejected "+17"; with the repaired dispatcher the witness parses *)
 Example C02_plus_sign_witness : parse_obj false 1 (B "+17") 0 = POk (OInt 17, 0, 3) 3.
 Proof. vm_compute. reflexivity. Qed.
 
-Print Assumptions C02_plus_sign_witness.
+Print Assumptions C02_spelling.
+Print Assumptions C02_int_follow_delimiter.
+Print Assumptions C02_number_spelling.
+Print Assumptions C02_int_then_ref.
+Print Assumptions C02_name_spelling.
+Print Assumptions C02_name_decode_is_simple.
+Print Assumptions C02_lit_string_balanced.
+Print Assumptions C02_hex_string_spelling.
+Print Assumptions C02_whitespace.
+Print Assumptions C02_dict_no_null.
+Print Assumptions C02_no_null_anywhere.
+Print Assumptions C02_dup_key_rejected.
+Print Assumptions C02_dup_key_rejected_anywhere.
+Print Assumptions C02_no_comment_object.
